@@ -44,6 +44,9 @@ pub enum Op {
     AutoescapeOn { suffixes: Vec<String> },
     SetDelimsLate { delims: Delims },
     SetPrefixesLate { prefixes: Vec<String> },
+    /// register the simulator's filter / function / test / escape function on an instance that
+    /// was created without them (directly, or through `register_from` another instance)
+    RegisterCustom { via_from: bool },
     /// continue on a clone; the original must stay exactly as it was
     CloneSwap,
     /// build a brand-new instance through the real loading path (disk + manual) and compare
@@ -65,6 +68,7 @@ impl Op {
             Op::AutoescapeOn { .. } => "autoescape_on",
             Op::SetDelimsLate { .. } => "set_delims_late",
             Op::SetPrefixesLate { .. } => "set_prefixes_late",
+            Op::RegisterCustom { .. } => "register_custom",
             Op::CloneSwap => "clone",
             Op::Restart => "restart",
             Op::DiskWrite { .. } => "disk_write",
@@ -365,6 +369,7 @@ fn resulting(m: &Model, op: &Op) -> Option<Model> {
         Op::AutoescapeOn { suffixes } => r.config.autoescape = Some(suffixes.clone()),
         Op::SetDelimsLate { delims } => r.config.delims = delims.clone(),
         Op::SetPrefixesLate { prefixes } => r.config.prefixes = prefixes.clone(),
+        Op::RegisterCustom { .. } => r.config.custom = true,
         _ => return None,
     }
     Some(r)
@@ -431,6 +436,10 @@ pub fn execute(sc: &RegScenario, stats: &mut Stats) -> Outcome {
             }),
             Op::SetDelimsLate { delims } => catch(|| t.set_delimiters(delims.to_tera())),
             Op::SetPrefixesLate { prefixes } => catch(|| t.set_fallback_prefixes(prefixes.clone())),
+            Op::RegisterCustom { via_from } => catch(|| {
+                engine::register_custom(&mut t, *via_from);
+                Ok(())
+            }),
             Op::CloneSwap => {
                 if original.is_none() {
                     let c = t.clone();
@@ -576,13 +585,16 @@ pub fn execute(sc: &RegScenario, stats: &mut Stats) -> Outcome {
             log.str(&norm(&format!("{}", e), &root_str));
         } else {
             stats.inc("ops_ok");
+            if matches!(op, Op::RegisterCustom { .. }) && failed_ops > 0 {
+                stats.inc("probe_callbacks_registered_after_a_refusal");
+            }
         }
         log.u64(ok as u64);
 
         // ---- model transition
         let mut next_model: Option<Model> = None;
         match op {
-            Op::AddRaw { .. } | Op::AddBatch { .. } | Op::AutoescapeOn { .. } | Op::SetDelimsLate { .. } | Op::SetPrefixesLate { .. } => {
+            Op::AddRaw { .. } | Op::AddBatch { .. } | Op::AutoescapeOn { .. } | Op::SetDelimsLate { .. } | Op::SetPrefixesLate { .. } | Op::RegisterCustom { .. } => {
                 next_model = resulting(&model, op);
             }
             Op::AddFile { path, name, .. } => {
